@@ -82,6 +82,8 @@ def diag_case(what, D, R, timeout=400):
         b.diag("S", R, D); b.free("mu", (R, D)); b.free("lb", (R,)); b.free("x", (1, D))
         if what in ("pdf_kl",):
             b.diag("S2", R, D); b.free("mu2", (R, D))
+        if what == "pdf_update":
+            b.diag("S2", 1, D); b.free("mu2", (1, D))
         if what in ("measure_multiply",):
             declare_factor(b, "onerank", "f_", 1, D)
         if what == "pdf_linear_sum":
@@ -111,6 +113,11 @@ def diag_case(what, D, R, timeout=400):
                 elif what == "pdf_linear_sum":
                     s = p.get_density_of_linear_sum(A["W"])
                     o = {"fields": _objfields(s)}
+                elif what == "pdf_update":
+                    p.integrate("x")                         # caches populated before the in-place update
+                    p.update(jnp.array([R - 1]), cls(Sigma=A["S2"], mu=A["mu2"]))
+                    o = {"fields": _objfields(p), "one": p.integrate("1"), "Ex": p.integrate("x"), "Exx": p.integrate("xx'"), "logint": p.log_integral(),
+                         "eval": p.evaluate_ln(x), "entropy": p.entropy()}
             else:
                 cls = measure.GaussianDiagMeasure if which == "special" else measure.GaussianMeasure
                 u = cls(Lambda=A["S"], nu=A["mu"], ln_beta=A["lb"])
@@ -217,7 +224,7 @@ def cases(tier, seed=0):
                 out.append(factor_case(fk, "hadamard", True, True, 3, 2, 2, timeout=1800))
             out.append(factor_case(fk, "multiply", True, True, 2, 3, 3, timeout=1800))
             out.append(factor_case(fk, "multiply", False, False, 3, 1, 2, timeout=1800))
-    for what in ("pdf_basic", "pdf_marginal", "pdf_condition", "pdf_kl", "pdf_linear_sum", "measure_basic", "measure_product", "measure_multiply"):
+    for what in ("pdf_basic", "pdf_marginal", "pdf_condition", "pdf_kl", "pdf_linear_sum", "pdf_update", "measure_basic", "measure_product", "measure_multiply"):
         out.append(diag_case(what, 2, 2))
         if tier == "thorough" or what in ("pdf_marginal", "pdf_condition"):
             out.append(diag_case(what, 3, 2, timeout=900))
